@@ -201,6 +201,30 @@ func (*c05) Corpus() []any {
 		"templates/_c.tpl":  "{{- define \"common.dup\" -}}from-c{{- end -}}",
 		"templates/_d.tpl":  "{{- define \"common.dup\" -}}from-d{{- end -}}",
 		"templates/cm.yaml": "apiVersion: v1\nkind: ConfigMap\nmetadata:\n  name: x\ndata:\n  d: {{ include \"common.dup\" . | quote }}\n"}, nil))
+	// cross-template shared state: every file appends to .Values.trace / .Values.global and prints
+	// what it has seen, in the parent and in a subchart; the execution order is fully visible
+	{
+		files := map[string]string{"values.yaml": "global:\n  g: x\nm:\n  k: v\n",
+			"charts/s/Chart.yaml": "apiVersion: v2\nname: s\nversion: 0.1.0\n", "charts/s/values.yaml": "m:\n  k: v\n"}
+		for _, pre := range []string{"", "charts/s/"} {
+			for _, n := range []string{"w-a", "w-b", "w-c", "w-d", "w-e", "w-f", "sub/w-g", "sub/deep/w-h"} {
+				files[pre+"templates/"+n+".yaml"] = "{{- $_ := set .Values \"trace\" (printf \"%s>%s\" (default \"\" .Values.trace) .Template.Name) -}}\n" +
+					"{{- $_ := set .Values.global \"gtrace\" (printf \"%s|%s\" (default \"\" .Values.global.gtrace) .Template.Name) -}}\n" +
+					"{{- $_ := set .Values.m (printf \"w%d\" (len .Values.m)) .Template.Name -}}\n" +
+					"apiVersion: v1\nkind: ConfigMap\nmetadata:\n  name: " + strings.ReplaceAll(n, "/", "-") + "\ndata:\n  trace: {{ .Values.trace | quote }}\n  gtrace: {{ .Values.global.gtrace | quote }}\n  m: {{ .Values.m | toJson | quote }}\n"
+			}
+			files[pre+"templates/NOTES.txt"] = "{{- $_ := set .Values \"trace\" (printf \"%s>NOTES\" (default \"\" .Values.trace)) -}}\nseen: {{ .Values.trace }} / {{ .Values.global.gtrace }}\n"
+		}
+		out = append(out, c05CorpusChart("shared-state", files, func(c *c05Case) { c.SubNotes = true }))
+	}
+	// getHostByName reached directly, through tpl and through include, with DNS off: rendered through
+	// every engine entry point (see the with-client regimes)
+	out = append(out, c05CorpusChart("dns-entry-points", map[string]string{
+		"templates/_h.tpl":       "{{- define \"dns.host\" -}}{{ getHostByName \"localhost\" }}{{- end -}}",
+		"templates/direct.yaml":  "c05dns: \"[{{ getHostByName \"localhost\" }}]\"\n",
+		"templates/via-tpl.yaml": "c05dns-tpl: \"[{{ tpl \"{{ getHostByName \\\"localhost\\\" }}\" . }}]\"\n",
+		"templates/via-inc.yaml": "c05dns-inc: \"[{{ include \"dns.host\" . }}]\"\n",
+		"templates/NOTES.txt":    "c05dns-notes: \"[{{ getHostByName \"localhost\" }}]\"\n"}, nil))
 	// every schema $ref form once
 	for _, ref := range c05RefForms {
 		if ref == "file://@CANARY@/s.json" {
